@@ -65,22 +65,24 @@ def run_patch(pid, patch, keep=False):
             shutil.rmtree(scratch, ignore_errors=True)
 
 
-def run_all(pid):
+def run_all(pid, jobs=None):
     d = os.path.join(VERIF, "mutants", pid)
-    out = []
-    if not os.path.isdir(d):
-        return out
-    for f in sorted(os.listdir(d)):
-        if f.endswith(".patch"):
-            out.append(run_patch(pid, os.path.join(d, f)))
+    patches = []
+    if os.path.isdir(d):
+        patches += [os.path.join(d, f) for f in sorted(os.listdir(d)) if f.endswith(".patch")]
     # the independently seeded changes for this property (written by sub-agents without access to /verif) must be reported too
     sd = os.path.join(VERIF, "seeded")
     if os.path.isdir(sd):
         for s in sorted(os.listdir(sd)):
             p = os.path.join(sd, s, "patch.diff")
             if s.startswith(pid) and os.path.exists(p):
-                out.append(run_patch(pid, p))
-    return out
+                patches.append(p)
+    if not patches:
+        return []
+    from concurrent.futures import ThreadPoolExecutor
+    jobs = jobs or max(1, min(6, (os.cpu_count() or 4) // 3))
+    with ThreadPoolExecutor(max_workers=jobs) as ex:
+        return list(ex.map(lambda p: run_patch(pid, p), patches))
 
 
 if __name__ == "__main__":
